@@ -250,6 +250,30 @@ func rollbackScenario(c *core.Ctx) {
 	}
 	_ = s.Quiesce(3 * time.Second)
 	s.ClearHooks()
+	// "honours the configured number of snapshots to keep": once the index is idle root.bolt holds at most that
+	// many. Extras that are queued for the purger's next pass are the known lingering (the purger only runs when the
+	// persister wakes up, DESIGN.md section 10.8); extras that nobody remembers stay for ever.
+	if snaps, err := ReadRootBolt(store); err == nil && len(snaps) > keep {
+		pending := map[uint64]bool{}
+		if adv, _ := idx.Advanced(); adv != nil {
+			if sc, ok := adv.(*scorch.Scorch); ok {
+				for _, e := range sc.SimEligibleForRemoval() {
+					pending[e] = true
+				}
+			}
+		}
+		notQueued := 0
+		for _, sn := range snaps {
+			if !pending[sn.Epoch] {
+				notQueued++
+			}
+		}
+		sig := map[string]string{"extras": "queued-for-next-purge"}
+		if notQueued > keep {
+			sig["extras"] = "not-queued"
+		}
+		c.Violate("too-many-rollback-points", sig, s.Steps, "the idle index offers %d rollback points %v but numSnapshotsToKeep is %d (queued for the purger's next pass: %v)", len(snaps), epochs(snaps), keep, pending)
+	}
 	s.Spawn("closer", func() {
 		if err := idx.Close(); err != nil {
 			c.Violate("close-error", nil, s.Steps, "Close: %v", err)
